@@ -18,7 +18,7 @@ RULE = (
     "for one droplet, a reduced complete product for two droplets, radius lattices on polar/spherical grids and z/radius lattices on "
     "cylindrical grids; cases violating the stated preconditions (covered set not one face-connected component, knife-edge cell, droplet "
     "not inside a non-periodic box, winding) are screened and counted; non-trivial = droplet covers >= 3 cells"
-    " plus annular polar/spherical grids, radii up to the outer wall, cylindrical z ranges on both sides of 0, elongated boxes with pairs separated by multiples of the other axis' length, UnitGrid objects, centres one and two periods outside; histories (fresh fork): all ordered pairs/triples of grids of one family differing in one attribute, and four analyses on one shared grid object"
+    " plus annular polar/spherical grids, radii up to the outer wall, cylindrical z ranges on both sides of 0, elongated boxes with pairs separated by multiples of the other axis' length, UnitGrid objects, centres one and two periods outside; histories (fresh fork): all ordered pairs/triples of grids of one family differing in one attribute, and four analyses on one shared grid object; the same placements measured in length units 1e-9, 1e-5, 1e4, 1e12 (all tolerances scale with the unit)"
 )
 ASSUMPTIONS = [
     "placements restricted to the declared lattices (sub-cell offsets k/4 + seed phase); the half-cell bound is checked, not proved",
@@ -72,6 +72,19 @@ def blocks(tier, seed):
     for shape in ([8, 24], [24, 8]) + (([6, 6, 18], [18, 6, 6], [6, 18, 6]) if tier == "thorough" else ([6, 6, 18],)):
         for mask in itertools.product((False, True), repeat=len(shape)):
             out.append({"kind": "elong", "shape": list(shape), "mask": list(mask), "phase": ph})
+    # the same placements in other length units (absolute tolerances anywhere in the pipeline would show up here)
+    for u in UNITS:
+        for dim in (1, 2):
+            dx, org = SPACINGS[dim][1]
+            for mask in itertools.product((False, True), repeat=dim):
+                out.append({"kind": "cart1", "dim": dim, "dx": dx, "origin": org, "mask": list(mask), "rf": RFACT[dim][1], "phase": ph, "tier": "units", "unit_length": u})
+        out.append({"kind": "cart2", "dim": 2, "dx": SPACINGS[2][1][0], "origin": SPACINGS[2][1][1], "mask": [True, False], "phase": ph, "tier": tier, "unit_length": u})
+        out.append({"kind": "cart1", "dim": 3, "dx": SPACINGS[3][1][0], "origin": SPACINGS[3][1][1], "mask": [True, False, True], "rf": RFACT[3][0], "phase": ph, "tier": "quick", "unit_length": u})
+        for kind in ("polar", "sph"):
+            out.append({"kind": kind, "n": 9, "R": 4.5, "phase": ph, "unit_length": u})
+            out.append({"kind": kind, "n": 10, "r0": 2.5, "R": 7.5, "phase": ph, "unit_length": u})
+        for pz in (False, True):
+            out.append({"kind": "cyl", "shape": [5, 9], "R": 2.5, "z": [-9.3, -3.0], "pz": pz, "phase": ph, "tier": tier, "unit_length": u})
     # histories: all ordered pairs of grids that differ in exactly one attribute, analysed one after the other in a fresh process
     for fam in ("cyl", "cart", "polar", "sph"):
         out.append({"kind": "gridseq", "family": fam, "phase": ph})
@@ -128,7 +141,19 @@ def centre_coord(cls, off, lo, n, dx, R):
     return lo + (idx + off) * dx
 
 
+UNITS = [1e-9, 1e-5, 1e4, 1e12]  # the same geometry measured in nanometres ... (the statement holds for any spacing)
+
+
 def cases(block):
+    u = block.get("unit_length")
+    if u is None:
+        yield from _cases(block)
+        return
+    for c in _cases({k_: v for k_, v in block.items() if k_ != "unit_length"}):
+        yield dict(c, grid=geom.scale_spec(c["grid"], u), drops=[[[x * u for x in cc], R * u] for cc, R in c["drops"]], unit_length=u)
+
+
+def _cases(block):
     k = block["kind"]
     ph = block["phase"]
     if k == "cart1":
@@ -138,7 +163,10 @@ def cases(block):
         g = {"kind": "cart", "shape": shape, "dx": dx, "origin": org, "periodic": mask}
         if block.get("unit"):
             g["unit"] = True
-        if dim == 3 and block["tier"] != "thorough":
+        if block["tier"] == "units":
+            offs = [0.25 + ph, 0.75 + ph]
+            clsf = axis_classes
+        elif dim == 3 and block["tier"] != "thorough":
             offs = [0.0 + ph, 0.5 + ph]
             clsf = lambda p: ["interior", "low", "outside+"] if p else ["interior", "near-high"]
         else:
@@ -248,6 +276,9 @@ def run_case(case, ctx):
     drops = case["drops"]
     cellvol = geom.cell_volumes(g)
     tags = {"grid": kind}
+    u = case.get("unit_length", 1.0)  # length unit: every absolute tolerance below is a multiple of it
+    if u != 1.0:
+        ctx.count("other-length-units")
     if case.get("elong"):
         ctx.count("pairs-separated-by-the-other-axis-length")
     if g.get("r0"):
@@ -258,7 +289,7 @@ def run_case(case, ctx):
     covered = []
     for c, R in drops:
         dist = geom.dist_field(g, c)
-        scale = max(g["dx"]) if kind == "cart" else 1.0
+        scale = max(g["dx"]) if kind == "cart" else u
         if geom.knife_edge(dist, R, scale):
             ctx.skip("knife-edge")
             return
@@ -294,7 +325,7 @@ def run_case(case, ctx):
                 if g["periodic_z"]:
                     Lz = g["z"][1] - g["z"][0]
                     gap = min(gap, Lz - abs(drops[i][0][2] - drops[j][0][2]) - drops[i][1] - drops[j][1])
-            if gap < need - 1e-9:
+            if gap < need - 1e-9 * u:
                 ctx.skip("precondition:gap")
                 return
     if any(cov.sum() >= 3 for cov in covered):
@@ -346,20 +377,20 @@ def run_case(case, ctx):
             L = geom.cart_lengths(g)
             for a in range(dim):
                 delta = float(geom.min_image(p[a] - c[a], L[a], g["periodic"][a]))
-                ctx.check("C01.centre", abs(delta) <= g["dx"][a] / 2 + 1e-9, {"axis": a, "delta": delta, "dx": g["dx"][a], "got": p, "want": c}, tags)
+                ctx.check("C01.centre", abs(delta) <= g["dx"][a] / 2 + 1e-9 * u, {"axis": a, "delta": delta, "dx": g["dx"][a], "got": p, "want": c}, tags)
                 if g["periodic"][a]:
-                    ctx.check("C01.inbox", g["origin"][a] - 1e-12 <= p[a] <= g["origin"][a] + L[a] + 1e-12, {"axis": a, "pos": p}, tags)
+                    ctx.check("C01.inbox", g["origin"][a] - 1e-12 * u <= p[a] <= g["origin"][a] + L[a] + 1e-12 * u, {"axis": a, "pos": p}, tags)
         elif kind in ("polar", "sph"):
             dr = geom.radial_spacing(g)
-            ctx.check("C01.centre", bool(np.all(p == 0)) and abs(d.radius - R) <= dr / 2 + 1e-9, {"pos": p, "radius": d.radius, "want": R, "dr": dr}, tags)
+            ctx.check("C01.centre", bool(np.all(p == 0)) and abs(d.radius - R) <= dr / 2 + 1e-9 * u, {"pos": p, "radius": d.radius, "want": R, "dr": dr}, tags)
         else:
             dz = (g["z"][1] - g["z"][0]) / g["shape"][1]
-            ctx.check("C01.centre", abs(p[0]) <= 1e-12 and abs(p[1]) <= 1e-12 and abs(p[2] - c[2]) <= dz / 2 + 1e-9, {"pos": p, "want": c, "dz": dz}, tags)
+            ctx.check("C01.centre", abs(p[0]) <= 1e-12 * u and abs(p[1]) <= 1e-12 * u and abs(p[2] - c[2]) <= dz / 2 + 1e-9 * u, {"pos": p, "want": c, "dz": dz}, tags)
             if g["periodic_z"]:
-                ctx.check("C01.inbox", g["z"][0] - 1e-12 <= p[2] <= g["z"][1] + 1e-12, {"pos": p}, tags)
+                ctx.check("C01.inbox", g["z"][0] - 1e-12 * u <= p[2] <= g["z"][1] + 1e-12 * u, {"pos": p}, tags)
 
 
 def expected_positive(tier):
     return ["C01.count", "C01.volume", "C01.centre", "C01.inbox", "C01.integral", "straddling-periodic-boundary", "straddling-periodic-corner",
             "centre-outside-box", "anisotropic", "two-droplets", "covers>=3cells",
-            "grid-sequences", "pairs-separated-by-the-other-axis-length", "annular-grid", "droplet-reaching-the-outer-wall"]
+            "grid-sequences", "pairs-separated-by-the-other-axis-length", "annular-grid", "droplet-reaching-the-outer-wall", "other-length-units"]
